@@ -691,61 +691,10 @@ theorem visit_perm_shape {p sch carry need skip} (hf : VisitFacts p sch carry ne
 /-! ### ConstantOptimizer -/
 open Opt
 
-theorem foldableL_eq (c) (xs : List Tree) : Spec.foldableL c xs = xs.all (Spec.foldable c) := by
-  induction xs with
-  | nil => simp [Spec.foldableL]
-  | cons t ts ih => simp [Spec.foldableL, ih]
-
-theorem foldable_node (c k r fs) : Spec.foldable c (.node k r fs) =
-    (k == c.const || (k == c.tuple && match eltsOf fs with
-      | some elts => elts.all (Spec.foldable c)
-      | none => false)) := by
-  unfold Spec.foldable eltsOf
-  split <;> simp_all [foldableL_eq]
-
-theorem tupleStep_isNode (c k r fs') : ∃ k' r' fs'', tupleStep c k r fs' = .node k' r' fs'' := by
-  unfold tupleStep mkConst
-  split
-  · split
-    · split <;> exact ⟨_, _, _, rfl⟩
-    · exact ⟨_, _, _, rfl⟩
-  · exact ⟨_, _, _, rfl⟩
-
-theorem constTuple_eq_list (c) : ∀ a ys, constTuple c a = .list ys → ∃ xs, a = .list xs ∧ ys = xs.map (constTuple c)
-  | .leaf _, ys, h => by simp [constTuple] at h
-  | .none, ys, h => by simp [constTuple] at h
-  | .some _, ys, h => by simp [constTuple] at h
-  | .list xs, ys, h => by simp [constTuple, constTupleL_eq] at h; exact ⟨xs, rfl, h.symm⟩
-  | .node k r fs, ys, h => by
-    obtain ⟨k', r', fs'', he⟩ := tupleStep_isNode c k r (constTupleL c fs)
-    simp [constTuple, he] at h
-
-theorem eltsOf_map (c) (fs : List Tree) :
-    eltsOf (fs.map (constTuple c)) = (eltsOf fs).map (·.map (constTuple c)) := by
-  match fs with
-  | [] => simp [eltsOf]
-  | [a] => simp [eltsOf]
-  | a :: b :: c' :: rest => simp [eltsOf]
-  | [a, b] =>
-    cases a with
-    | list xs => simp [eltsOf, constTuple, constTupleL_eq]
-    | leaf _ => simp [eltsOf, constTuple]
-    | none => simp [eltsOf, constTuple]
-    | some _ => simp [eltsOf, constTuple]
-    | node k r fs =>
-      obtain ⟨k', r', fs'', he⟩ := tupleStep_isNode c k r (constTupleL c fs)
-      simp [eltsOf, constTuple, he]
-
 theorem optL_eq (c) (xs : List Tree) : Spec.optL c xs = xs.map (Spec.opt c) := by
   induction xs with
   | nil => simp [Spec.optL]
   | cons t ts ih => simp [Spec.optL, ih]
-
-theorem noFoldL_eq (c) (xs : List Tree) :
-    Spec.noFoldableStoreTupleL c xs = xs.all (Spec.noFoldableStoreTuple c) := by
-  induction xs with
-  | nil => simp [Spec.noFoldableStoreTupleL]
-  | cons t ts ih => simp [Spec.noFoldableStoreTupleL, ih]
 
 theorem constTuple_node (c k r fs) :
     constTuple c (.node k r fs) = tupleStep c k r (fs.map (constTuple c)) := by
@@ -755,134 +704,39 @@ theorem specOpt_node (c k r fs) :
     Spec.opt c (.node k r fs) = Spec.tupleStep c k r (fs.map (Spec.opt c)) := by
   simp [Spec.opt, optL_eq]
 
-theorem ctxOf_map (c) (fs : List Tree) : ctxOf (fs.map (constTuple c)) = ctxOf fs := by
-  match fs with
-  | [] => simp [ctxOf]
-  | [a] => simp [ctxOf]
-  | a :: b :: c' :: rest => simp [ctxOf]
-  | [a, b] =>
-    cases b with
-    | leaf x => simp [ctxOf, constTuple]
-    | list xs => simp [ctxOf, constTuple]
-    | none => simp [ctxOf, constTuple]
-    | some _ => simp [ctxOf, constTuple]
-    | node k r fs =>
-      obtain ⟨k', r', fs'', he⟩ := tupleStep_isNode c k r (constTupleL c fs)
-      simp [ctxOf, constTuple, he]
-
-theorem eltsOf_mem {fs : List Tree} {elts} (h : eltsOf fs = some elts) : Tree.list elts ∈ fs := by
-  unfold eltsOf at h
-  split at h
-  · cases h; simp
-  · cases h
-
-/-- after optimisation a node is a constant exactly if the original subtree was foldable -/
-theorem isConst_constTuple (c : OptCfg) (hne : c.tuple ≠ c.const) :
-    ∀ t, (isConstNode c (constTuple c t) = Spec.foldable c t) ∧
-      (∀ xs, t = .list xs → ∀ x ∈ xs, isConstNode c (constTuple c x) = Spec.foldable c x) := by
-  intro t
-  induction t using Tree.ind with
-  | hleaf a => simp [constTuple, isConstNode, Spec.foldable]
-  | hnone => simp [constTuple, isConstNode, Spec.foldable]
-  | hsome t ih => simp [constTuple, isConstNode, Spec.foldable]
-  | hlist xs ih =>
-    refine ⟨by simp [constTuple, isConstNode, Spec.foldable], ?_⟩
-    intro ys h x hx
-    cases h
-    exact (ih x hx).1
-  | hnode k r fs ih =>
-    refine ⟨?_, by intro xs h; cases h⟩
-    rw [constTuple_node, foldable_node]
-    unfold tupleStep
-    by_cases hk : (k == c.tuple) = true
-    · have hkc : (k == c.const) = false := by
-        simp at hk; subst hk; simp; exact hne
-      simp only [hk, if_true, hkc, Bool.false_or, Bool.true_and, eltsOf_map]
-      cases he : eltsOf fs with
-      | none => simp [isConstNode, hkc]
-      | some elts =>
-        have hall : (elts.map (constTuple c)).all (isConstNode c) = elts.all (Spec.foldable c) := by
-          have hx : ∀ x ∈ elts, isConstNode c (constTuple c x) = Spec.foldable c x :=
-            (ih _ (eltsOf_mem he)).2 elts rfl
-          rw [Bool.eq_iff_iff]
-          simp only [List.all_map, List.all_eq_true, Function.comp_apply]
-          constructor
-          · intro h x hm; rw [← hx x hm]; exact h x hm
-          · intro h x hm; rw [hx x hm]; exact h x hm
-        simp only [Option.map_some]
-        rw [hall]
-        cases hf : elts.all (Spec.foldable c) with
-        | true => simp [mkConst, isConstNode]
-        | false => simp [isConstNode, hkc]
-    · have hk' : (k == c.tuple) = false := by simpa using hk
-      simp [hk', isConstNode]
-
-theorem tupleStep_agree (c : OptCfg) (hne : c.tuple ≠ c.const) (k r) (fs : List Tree)
-    (hih : ∀ x ∈ fs, (isConstNode c (constTuple c x) = Spec.foldable c x) ∧
-      (∀ xs, x = .list xs → ∀ y ∈ xs, isConstNode c (constTuple c y) = Spec.foldable c y))
-    (hd : (k == c.tuple && ctxOf fs != some Spec.loadText && Spec.foldable c (.node k r fs)) = false) :
-    tupleStep c k r (fs.map (constTuple c)) = Spec.tupleStep c k r (fs.map (constTuple c)) := by
+/-- the model's tuple arm is the reference one -/
+theorem tupleStep_eq_spec (c : OptCfg) (k r) (fs' : List Tree) :
+    tupleStep c k r fs' = Spec.tupleStep c k r fs' := by
   unfold tupleStep Spec.tupleStep
   by_cases hk : (k == c.tuple) = true
-  · have hkc : (k == c.const) = false := by
-      simp at hk; subst hk; simp; exact hne
-    simp only [hk, if_true, eltsOf_map, ctxOf_map]
-    rw [foldable_node] at hd
-    simp only [hk, hkc, Bool.true_and, Bool.false_or] at hd
-    cases he : eltsOf fs with
+  · simp only [hk, if_true]
+    cases he : eltsOf fs' with
     | none => simp
     | some elts =>
-      have hall : (elts.map (constTuple c)).all (isConstNode c) = elts.all (Spec.foldable c) := by
-        have hx : ∀ x ∈ elts, isConstNode c (constTuple c x) = Spec.foldable c x :=
-          (hih _ (eltsOf_mem he)).2 elts rfl
-        rw [Bool.eq_iff_iff]
-        simp only [List.all_map, List.all_eq_true, Function.comp_apply]
-        constructor
-        · intro h x hm; rw [← hx x hm]; exact h x hm
-        · intro h x hm; rw [hx x hm]; exact h x hm
-      simp only [Option.map_some]
-      rw [he] at hd
-      simp only [] at hd
-      cases hf : elts.all (Spec.foldable c) with
-      | false =>
-        have hA : (elts.map (constTuple c)).all (isConstNode c) = false := by rw [hall]; exact hf
-        cases hc : ctxOf fs with
-        | none => simp only [hA]; simp
-        | some ctx => simp only [hA]; simp
-      | true =>
-        have hA : (elts.map (constTuple c)).all (isConstNode c) = true := by rw [hall]; exact hf
-        rw [hf, Bool.and_true] at hd
-        cases hc : ctxOf fs with
-        | none => rw [hc] at hd; simp at hd
-        | some ctx =>
-          rw [hc] at hd
-          have : ctx = Spec.loadText := by simpa using hd
-          subst this
-          simp only [hA]; simp
+      cases hc : ctxOf fs' with
+      | none => simp
+      | some ctx =>
+        have : (some ctx == some loadText) = (ctx == Spec.loadText) := by
+          simp [loadText, Spec.loadText]
+        simp only [this]
   · have hk' : (k == c.tuple) = false := by simpa using hk
     simp [hk']
 
-theorem opt_spec_aux (c : OptCfg) (hne : c.tuple ≠ c.const) :
-    ∀ t, Spec.noFoldableStoreTuple c t = true → constTuple c t = Spec.opt c t := by
+theorem opt_spec_aux (c : OptCfg) : ∀ t, constTuple c t = Spec.opt c t := by
   intro t
   induction t using Tree.ind with
-  | hleaf a => intro _; simp [constTuple, Spec.opt]
-  | hnone => intro _; simp [constTuple, Spec.opt]
-  | hsome t ih => intro h; simp [Spec.noFoldableStoreTuple] at h; simp [constTuple, Spec.opt, ih h]
+  | hleaf a => simp [constTuple, Spec.opt]
+  | hnone => simp [constTuple, Spec.opt]
+  | hsome t ih => simp [constTuple, Spec.opt, ih]
   | hlist xs ih =>
-    intro h
-    simp only [Spec.noFoldableStoreTuple, noFoldL_eq, List.all_eq_true] at h
     simp only [constTuple, Spec.opt, constTupleL_eq, optL_eq]
     congr 1
-    exact List.map_congr_left fun x hx => ih x hx (h x hx)
+    exact List.map_congr_left fun x hx => ih x hx
   | hnode k r fs ih =>
-    intro h
-    simp only [Spec.noFoldableStoreTuple, noFoldL_eq, Bool.and_eq_true, List.all_eq_true,
-      Bool.not_eq_true'] at h
     have hmap : fs.map (constTuple c) = fs.map (Spec.opt c) :=
-      List.map_congr_left fun x hx => ih x hx (h.1 x hx)
-    rw [constTuple_node, specOpt_node, ← hmap]
-    exact tupleStep_agree c hne k r fs (fun x _ => isConst_constTuple c hne x) h.2
+      List.map_congr_left fun x hx => ih x hx
+    rw [constTuple_node, specOpt_node, ← hmap, tupleStep_eq_spec]
+
 /-- a fixed field list stays fixed under `tupleStep` followed by another pass -/
 theorem constTuple_tupleStep (c : OptCfg) (hne : c.tuple ≠ c.const) (k r) (fs' : List Tree)
     (hfix : fs'.map (constTuple c) = fs') :
@@ -899,7 +753,7 @@ theorem constTuple_tupleStep (c : OptCfg) (hne : c.tuple ≠ c.const) (k r) (fs'
       have : tupleStep c k r fs' = .node k r fs' := by simp [tupleStep, h1, he]
       rw [this, hnode, this]
     | some elts =>
-      cases ha : elts.all (isConstNode c) with
+      cases ha : (ctxOf fs' == some loadText && elts.all (isConstNode c)) with
       | true =>
         have : tupleStep c k r fs' = mkConst c r elts := by simp only [tupleStep, h1, he, ha]; simp
         rw [this]; exact hconst _
